@@ -224,6 +224,12 @@ where
 static CLEARED_TIMER_IDS: LazyLock<Mutex<HashSet<TimerId>>> =
     LazyLock::new(|| Mutex::new(HashSet::new()));
 
+/// Number of timer ids currently in the cleared-timer set (verification hook)
+#[cfg(feature = "crux_verif")]
+pub fn verif_cleared_timer_ids_len() -> usize {
+    CLEARED_TIMER_IDS.lock().unwrap().len()
+}
+
 #[cfg(test)]
 mod test {
     use super::*;
